@@ -6,6 +6,8 @@ mod error;
 pub mod js_op;
 mod op;
 mod value;
+#[cfg(jsonlogic_rs_verif)]
+pub mod verif;
 
 use error::Error;
 use value::{Evaluated, Parsed};
